@@ -598,6 +598,36 @@ fn d18d() -> R {
     Ok(())
 }
 
+/// D19: the bloom policy computed the number of filter bits in u32: a filter of 2^29 bytes or more made the
+/// reader panic (overflow / remainder by zero) and the writer panic or wrap
+fn d19a() -> R {
+    use sstable::filter::{BloomPolicy, FilterPolicy};
+    let p = BloomPolicy::new(10);
+    for extra in [1usize, 2, 9].iter() {
+        let mut f = vec![0u8; (1usize << 29) + extra];
+        let n = f.len();
+        f[n - 1] = 1;
+        // all bits are zero: every key must be reported absent, without a panic
+        if p.key_may_match(b"x", &f) {
+            return Err(format!("a filter of 2^29+{} zero bytes reports may-match", extra));
+        }
+    }
+    Ok(())
+}
+fn d19b() -> R {
+    use sstable::filter::{BloomPolicy, FilterPolicy};
+    let p = BloomPolicy::new(1 << 31);
+    let f = p.create_filter(b"ab", &[0, 1]);
+    if f.len() != (1usize << 29) + 1 {
+        return Err(format!("filter of 2 keys at 2^31 bits per key has {} bytes", f.len()));
+    }
+    for k in [&b"a"[..], &b"b"[..]].iter() {
+        if !p.key_may_match(k, &f) {
+            return Err("a key that was added is rejected".into());
+        }
+    }
+    Ok(())
+}
 
 // ---- format-inherent findings (open): expected to be VIOLATED, listed in known_findings.txt ------
 /// like raw_table, but every handle is shifted by `base` (the table will sit at offset `base` of a larger file)
@@ -804,6 +834,8 @@ const ALL: &[(&str, &str, fn() -> R)] = &[
     ("D18b-empty-data-block-prev", "C08", d18b),
     ("D18c-index-value-not-a-handle", "C08", d18c),
     ("D18d-malformed-filter-block", "C08", d18d),
+    ("D19a-bloom-reader-512mib-filter", "C08", d19a),
+    ("D19b-bloom-writer-2pow32-bits", "C09", d19b),
     ("F1-embedded-table-prefix", "C15", f1),
     ("F2-crc-collision", "C07", f2),
     ("F3-footer-handles-swapped", "C07", f3),
